@@ -245,6 +245,24 @@ addenda13 = {'C02': ' Values of defined numeric types (time.Duration, named int3
 for k, v in addenda13.items():
     e = checks[k]
     checks[k] = (e[0], e[1], e[2] + v, e[3], e[4])
+addenda14 = {'C03': ' Size ladder (2^k-1..2^k+2 up to 4097 distinct values) for the duplicate-removing helpers; Range on int8..int64 with spans wider than the type.',
+ 'C05': ' Size ladder (to 1195 elements, thorough 4778) as pairs and triples with a value repeated in one later operand and missing in another; stream sets whose streams are windows of one backing list.',
+ 'C06': ' The container\'s clock reads are answered by the checker (sync-only instrumentation): "idle for 2 s / 1 h" are operations of the alphabet, the idle period is part of the state key.',
+ 'C07': ' A receiver on GetChannel() after 100 ms / 5 s / 10 min without consumption; bursts of 300-1025 values with 100/300/1000 node hooks and trims between bursts (bound 0, long executions).',
+ 'C08': ' Remover against adder after a backlog of 70 and 1 ms / 3 s / 10 min of idleness.',
+ 'C09': ' Jobs that end their goroutine with runtime.Goexit (one and three in a row) on pools of at most one / two workers.',
+ 'C10': ' 1..140 and 255..1025 subscriptions with one removing itself during a delivery; a subscriber keeping the SubscribeOn handler busy for 300 ms / 3 s / 10 min.',
+ 'C11': ' FlatMap chains of every depth to 40 and around the powers of two to 4098, left- and right-nested, non-commuting steps; effects / OnNext keeping their handlers busy for 300 ms / 3 s / 10 min.',
+ 'C12': ' Mailboxes idle for 3 s / 10 min before all senders start at once; handler backlogs of 300 / 600 / 1100 functions behind a blocked one.',
+ 'C13': ' Four requests sharing one caller-supplied buffered reply channel (capacity 1, 2) with a late collector.',
+ 'C14': ' Targets that start 3 s / 10 min after the callers queued; targets that served N requests (N around 2^8, 2^15, 2^16, and 70000) before three callers arrive at once.',
+ 'C15': ' Close during one loader pass over 70 / 300 / 1100 values.',
+ 'C17': ' Response bodies of 2^k-1..2^k+1 bytes to 4 MiB (thorough 32 MiB), announced and not; evaluation 1.1 timeout periods after the call was described (real clock, one re-try at 5 s).',
+ 'C19': ' Sort size ladder to 4097 (thorough 32769) with stability oracle.',
+ 'C20': ' Equality patterns holding arrays / structs with arrays; 1100 (thorough 70000) distinct regex patterns in one process, three passes.'}
+for k, v in addenda14.items():
+    e = checks[k]
+    checks[k] = (e[0], e[1], e[2] + v, e[3], e[4])
 
 not_yet = "check not built yet in this round (see DESIGN.md §9 build order); no claim made"
 
